@@ -46,7 +46,7 @@ Full codec ops (run_full)
      "alloc_peak": int          largest single request through operator new/new[] during the decode call
      "alloc_total": int         sum of all such requests during the decode call
    (if the decode call throws: {"exception": "bad_alloc"|"length_error"|"std::exception"|"unknown",
-    "stage": "decode", "alloc_peak", "alloc_total"} and nothing else.)
+    "stage": "decode", "alloc_peak", "alloc_total", "heap_overrun"} and nothing else.)
    only when ok is true:
      "size": int                get_byte_size() of the decoded object
      "print": str               print() text (bytes mapped 1:1 to code points, i.e. latin-1)
@@ -61,10 +61,13 @@ Full codec ops (run_full)
                                 is absurd); step is one of "size","print","ptr_bytes","ptr_bytes_ff","reenc",
                                 "enc_little","enc_big","enc_native"; the keys of a step that threw are absent
    always last:
-     "heap_overrun": int        unsanitized builds only detect this: number of heap blocks (operator new blocks
-                                and the driver's exact-size buffers) whose first 64 bytes *after* the block were
-                                overwritten during the op. Those builds give every block 64 trailing guard bytes
-                                so a small overflow is recorded instead of corrupting the heap. Sanitized builds
+     "heap_overrun": int        only unsanitized builds detect this: number of heap blocks (operator new blocks
+                                and the driver's exact-size buffers) whose 1024 guard bytes *after* the block
+                                were overwritten during the op. Those builds append 1024 guard bytes (0xA5) to
+                                every block so that a moderate overflow is recorded instead of corrupting the
+                                heap (a larger one still ends as a "crash" such as "malloc(): corrupted ...");
+                                likewise an over-read of the decode input reads 0xA5 bytes there (a counter of
+                                0xA5A5A5A5 = 2779096485 in alloc_peak is the tell-tale). Sanitized builds
                                 allocate exact sizes (ASan reports the overflow => "crash") and always say 0.
    operator new refuses (std::bad_alloc) single requests above `alloc_cap` bytes (default 64 MiB) so that a
    decode that resizes from an untrusted counter cannot exhaust the machine; the request is still counted in
@@ -101,6 +104,9 @@ Notes for users
 * The generated codec aligns with `align<N>(pos)` on the *absolute* pointer, so results depend on the buffer
   being 8-aligned; all buffers used here are malloc'd (16-aligned).
 * Nothing here interprets or repairs results; mismatches and crashes are returned as data.
+* Out-of-bounds *reads* are only visible with sanitize=True; run both modes: the unsanitized one yields complete
+  results (sizes, bytes, heap_overrun) where the sanitized one stops an op at the first bad access.
+* Self-test: `/venv/bin/python cpprun.py [--sanitize] [--big]` (60 schemas; --big: 300).
 """
 import json
 import os
@@ -223,7 +229,7 @@ RT_FULL = r'''
 namespace cpprun
 {
 
-enum { GUARD = 64, HEADER = 16 };
+enum { GUARD = 1024, HEADER = 16 };
 static size_t g_peak = 0, g_total = 0, g_cap = 0, g_overrun = 0;
 
 static bool guard_ok(const uint8_t* g)
@@ -301,12 +307,33 @@ void* operator new[](size_t n) { return cpprun::counted_alloc(n); }
 void operator delete(void* p) throw() { cpprun::counted_free(p); }
 void operator delete[](void* p) throw() { cpprun::counted_free(p); }
 
-#define CPPRUN_TRY(key, code) \
-    try { code } \
-    catch (std::bad_alloc&) { excs += std::string(excs.empty() ? "" : ",") + "\"" key "\":\"bad_alloc\""; } \
-    catch (std::length_error&) { excs += std::string(excs.empty() ? "" : ",") + "\"" key "\":\"length_error\""; } \
-    catch (std::exception&) { excs += std::string(excs.empty() ? "" : ",") + "\"" key "\":\"std::exception\""; } \
-    catch (...) { excs += std::string(excs.empty() ? "" : ",") + "\"" key "\":\"unknown\""; }
+namespace cpprun
+{
+
+/* called inside a catch (...) handler: names the exception in flight */
+static const char* exc_name()
+{
+    try { throw; }
+    catch (std::bad_alloc&) { return "bad_alloc"; }
+    catch (std::length_error&) { return "length_error"; }
+    catch (std::exception&) { return "std::exception"; }
+    catch (...) { return "unknown"; }
+}
+
+static void note_exc(std::string& excs, const char* key)
+{
+    const char* name = exc_name();
+    if (!excs.empty()) excs += ",";
+    excs += "\"";
+    excs += key;
+    excs += "\":\"";
+    excs += name;
+    excs += "\"";
+}
+
+} // namespace cpprun
+
+#define CPPRUN_TRY(key, code) try { code } catch (...) { note_exc(excs, key); }
 '''
 
 FULL_BODY = r'''
@@ -317,15 +344,41 @@ typedef prophy::generated::@ROOT@ Root;
 
 @OVERFILL@
 
-static void report_all(const Root& x, std::string& excs)
+enum { E_LITTLE, E_BIG, E_NATIVE };
+
+static bool decode_e(int e, Root& x, const void* p, size_t n)
 {
-    CPPRUN_TRY("enc_little", std::vector<uint8_t> v = x.encode<prophy::little>(); kv_hex("enc_little", v.data(), v.size()); )
-    CPPRUN_TRY("enc_big", std::vector<uint8_t> v = x.encode<prophy::big>(); kv_hex("enc_big", v.data(), v.size()); )
-    CPPRUN_TRY("enc_native", std::vector<uint8_t> v = x.encode<prophy::native>(); kv_hex("enc_native", v.data(), v.size()); )
+    switch (e)
+    {
+        case E_LITTLE: return x.decode<prophy::little>(p, n);
+        case E_BIG: return x.decode<prophy::big>(p, n);
+        default: return x.decode<prophy::native>(p, n);
+    }
 }
 
-template <prophy::endianness E>
-static void report(const Root& x)
+static size_t encode_ptr_e(int e, const Root& x, void* p)
+{
+    switch (e)
+    {
+        case E_LITTLE: return x.encode<prophy::little>(p);
+        case E_BIG: return x.encode<prophy::big>(p);
+        default: return x.encode<prophy::native>(p);
+    }
+}
+
+static std::vector<uint8_t> encode_vec_e(int e, const Root& x)
+{
+    switch (e)
+    {
+        case E_LITTLE: return x.encode<prophy::little>();
+        case E_BIG: return x.encode<prophy::big>();
+        default: return x.encode<prophy::native>();
+    }
+}
+
+static void kv_vec(const char* k, const std::vector<uint8_t>& v) { kv_hex(k, v.data(), v.size()); }
+
+static void report(int e, const Root& x)
 {
     std::string excs;
     size_t size = 0;
@@ -336,16 +389,18 @@ static void report(const Root& x)
     {
         CPPRUN_TRY("ptr_bytes",
             exact_buf b(size, 0x00);
-            size_t w = x.encode<E>(static_cast<void*>(b.p));
+            size_t w = encode_ptr_e(e, x, b.p);
             kv_uint("ptr_written", w);
             kv_hex("ptr_bytes", b.p, size); )
         CPPRUN_TRY("ptr_bytes_ff",
             exact_buf b(size, 0xFF);
-            x.encode<E>(static_cast<void*>(b.p));
+            encode_ptr_e(e, x, b.p);
             kv_hex("ptr_bytes_ff", b.p, size); )
     }
-    CPPRUN_TRY("reenc", std::vector<uint8_t> v = x.encode<E>(); kv_hex("reenc", v.data(), v.size()); )
-    report_all(x, excs);
+    CPPRUN_TRY("reenc", kv_vec("reenc", encode_vec_e(e, x)); )
+    CPPRUN_TRY("enc_little", kv_vec("enc_little", encode_vec_e(E_LITTLE, x)); )
+    CPPRUN_TRY("enc_big", kv_vec("enc_big", encode_vec_e(E_BIG, x)); )
+    CPPRUN_TRY("enc_native", kv_vec("enc_native", encode_vec_e(E_NATIVE, x)); )
     if (!excs.empty())
     {
         printf(",\"exceptions\":{%s}", excs.c_str());
@@ -353,8 +408,7 @@ static void report(const Root& x)
     }
 }
 
-template <prophy::endianness E>
-static void op_inner(const uint8_t* in, size_t n, bool fill, size_t extra, bool deep)
+static void op_inner(int e, const uint8_t* in, size_t n, bool fill, size_t extra, bool deep)
 {
     Root x;
     exact_buf ib(n, 0);
@@ -363,11 +417,8 @@ static void op_inner(const uint8_t* in, size_t n, bool fill, size_t extra, bool 
     const char* exc = 0;
     g_peak = 0;
     g_total = 0;
-    try { ok = x.decode<E>(static_cast<const void*>(ib.p), n); }
-    catch (std::bad_alloc&) { exc = "bad_alloc"; }
-    catch (std::length_error&) { exc = "length_error"; }
-    catch (std::exception&) { exc = "std::exception"; }
-    catch (...) { exc = "unknown"; }
+    try { ok = decode_e(e, x, ib.p, n); }
+    catch (...) { exc = exc_name(); }
     size_t peak = g_peak, total = g_total;
     if (exc)
     {
@@ -385,20 +436,19 @@ static void op_inner(const uint8_t* in, size_t n, bool fill, size_t extra, bool 
     {
         std::string names;
         try { overfill_root(x, extra, deep, names); }
-        catch (std::bad_alloc&) { kv_str("exception", "bad_alloc"); kv_str("stage", "overfill"); return; }
-        catch (std::length_error&) { kv_str("exception", "length_error"); kv_str("stage", "overfill"); return; }
+        catch (...) { kv_str("exception", exc_name()); kv_str("stage", "overfill"); return; }
         printf(",\"overfilled\":[%s]", names.c_str());
         fflush(stdout);
     }
-    report<E>(x);
+    report(e, x);
 }
 
 static void op(const char* e, const uint8_t* in, size_t n, bool fill, size_t extra, bool deep)
 {
     g_overrun = 0;
-    if (!strcmp(e, "little")) op_inner<prophy::little>(in, n, fill, extra, deep);
-    else if (!strcmp(e, "big")) op_inner<prophy::big>(in, n, fill, extra, deep);
-    else if (!strcmp(e, "native")) op_inner<prophy::native>(in, n, fill, extra, deep);
+    if (!strcmp(e, "little")) op_inner(E_LITTLE, in, n, fill, extra, deep);
+    else if (!strcmp(e, "big")) op_inner(E_BIG, in, n, fill, extra, deep);
+    else if (!strcmp(e, "native")) op_inner(E_NATIVE, in, n, fill, extra, deep);
     else { kv_str("error", "bad op"); return; }
     kv_uint("heap_overrun", g_overrun);
 }
